@@ -22,6 +22,7 @@ type stMutant struct {
 	ExpectRules []string `json:"expect_rules"`
 	File        string   `json:"file"`
 	Note        string   `json:"note"`
+	Benign      bool     `json:"benign"`
 }
 
 // runThorough: quick tier plus (a) the self-test mutants of the property — each is applied to a scratch copy of the
@@ -109,6 +110,14 @@ func runThorough(pr *propertyRunner, p *Prog, r *Report) {
 					st = "detected"
 				}
 			}
+			if m.Benign {
+				// behaviour-preserving refactor: nothing may fire
+				if len(fl) == 0 {
+					st = "detected"
+				} else {
+					st = "missed"
+				}
+			}
 			det := ""
 			if fired["UNRESOLVED"] && st == "missed" {
 				det = "only UNRESOLVED fired (mutant may not type-check)"
@@ -124,12 +133,20 @@ func runThorough(pr *propertyRunner, p *Prog, r *Report) {
 		switch x.status {
 		case "detected":
 			nDet++
-			r.Pass("SELFTEST", "-", x.m.File, key, "-", fmt.Sprintf("mutant detected by %v (expected one of %v)", x.fired, x.m.ExpectRules), true)
+			if x.m.Benign {
+				r.Pass("SELFTEST", "-", x.m.File, key, "-", "behaviour-preserving refactor ("+x.m.Note+") raises no alarm", true)
+			} else {
+				r.Pass("SELFTEST", "-", x.m.File, key, "-", fmt.Sprintf("mutant detected by %v (expected one of %v)", x.fired, x.m.ExpectRules), true)
+			}
 		case "skipped":
 			nSkip++
 			r.Add(&Obligation{Rule: "SELFTEST", Pkg: "-", Func: x.m.File, Key: key, Pos: "-", OK: true, Info: true, Detail: "mutant-skipped: " + x.detail})
 		default:
-			r.Fail("SELFTEST", "-", x.m.File, key, "-", fmt.Sprintf("the checker did not detect its own self-test mutant (expected one of %v, fired %v) %s", x.m.ExpectRules, x.fired, x.detail))
+			if x.m.Benign {
+				r.Fail("SELFTEST", "-", x.m.File, key, "-", fmt.Sprintf("false alarm: behaviour-preserving refactor (%s) fired %v", x.m.Note, x.fired))
+			} else {
+				r.Fail("SELFTEST", "-", x.m.File, key, "-", fmt.Sprintf("the checker did not detect its own self-test mutant (expected one of %v, fired %v) %s", x.m.ExpectRules, x.fired, x.detail))
+			}
 		}
 		summary = append(summary, map[string]any{"id": x.m.ID, "status": x.status, "fired": x.fired, "expect": x.m.ExpectRules})
 	}
